@@ -164,6 +164,13 @@ PROPS["C19"] = {
         leg("ets-pre4", "c19_ets", (2, 3), {"pre": 4, "n": 2}, what="four registered, two new (growth at the fifth)"),
         leg("ets-pre2-n3", "c19_ets", (2, 2), {"pre": 2, "n": 3}, what="two registered, three new"),
         leg("ets-key", "c19_ets", (2, 3), {"kind": "ets_key", "pre": 2, "n": 2}, what="ets_key_per_instance (native TLS key) variant"),
+        leg("ets-park5", "c19_ets", (1, 1), {"kind": "ets_park", "n": 5, "park": 5}, what="five first accesses that are all between reading the table root and publishing their own array when the window opens (threads parked inside the user allocator): arrays of 4, 4, 8, 8 and 16 slots race for the root", weight=3.0),
+        leg("ets-park3", "c19_ets", (2, 3), {"kind": "ets_park", "n": 3, "park": 3}, what="three parked first accesses"),
+        leg("ets-park-pre2", "c19_ets", (2, 3), {"kind": "ets_park", "pre": 2, "n": 3, "park": 3}, what="two registered threads, three parked first accesses"),
+        leg("ets-move", "c19_ets", (2, 3), {"kind": "swap", "mode": 1}, what="a = std::move(b): the thread-to-element mapping travels with the contents"),
+        leg("ets-swap", "c19_ets", (2, 3), {"kind": "swap", "mode": 0}, what="contents exchanged by three moves"),
+        leg("ets-key-move", "c19_ets", (2, 3), {"kind": "swap_key", "mode": 1}, what="ets_key_per_instance: move assignment must carry the native TLS key"),
+        leg("ets-key-swap", "c19_ets", (2, 3), {"kind": "swap_key", "mode": 0}, what="ets_key_per_instance: exchange by three moves"),
         leg("combinable", "c19_ets", (2, 2), {"kind": "comb", "pre": 2, "n": 3}, what="combinable: combine / combine_each"),
         leg("once-2", "c19_once", (2, 3), {"callers": 2, "mask": 0}, flags=("-fp", "-hb"), what="two callers, no exception", weight=2.0),
         leg("once-2-throw1", "c19_once", (2, 3), {"callers": 2, "mask": 1}, flags=("-fp", "-hb"), what="first attempt throws, second caller retries", weight=2.0),
@@ -275,6 +282,9 @@ PROPS["C20"] = {
         leg("worker", "c20_suspend", (2, 3), {"kind": "worker"}, what="a sibling task resumes"),
         leg("nested", "c20_suspend", (1, 2), {"kind": "nested"}, what="two suspended tasks resumed in reverse order", weight=2.0),
         leg("arena1", "c20_suspend", (2, 3), {"kind": "arena1"}, what="arena of one slot: owner recall"),
+        leg("arena1-late", "c20_suspend", (2, 3), {"kind": "arena1", "late": 1}, what="arena of one slot, the resumer waits until the suspending thread has gone to sleep (late resume must still wake it)"),
+        leg("foreign-late", "c20_suspend", (1, 2), {"kind": "foreign", "late": 1}, what="late resume with main and worker asleep", weight=2.0),
+        leg("nested-late", "c20_suspend", (1, 2), {"kind": "nested", "late": 1}, what="two suspended tasks, late resume in reverse order", weight=2.0),
         leg("twice", "c20_suspend", (1, 2), {"kind": "twice"}, what="the same task suspends twice", weight=2.0),
     ],
 }
@@ -292,6 +302,10 @@ PROPS["C16"] = {
         leg("rt-enqueue1", "c16_rt", (2, 3), {"kind": "enqueue1"}, what="task_arena(1) with enqueued work: the single extra worker"),
         leg("rt-observer", "c16_rt", (1, 2), {"kind": "observer"}, what="observer entry/exit pairing on every thread", weight=3.0),
         leg("rt-isolate", "c16_rt", (2, 3), {"kind": "isolate"}, what="waiter inside isolate never runs outer tasks"),
+        leg("rt-gc_isolate", "c16_rt", (2, 3), {"kind": "gc_isolate", "L": 1}, what="max_allowed_parallelism 1, nothing enqueued: an isolated waiter skips foreign tasks in its pool (the 'wakeup' advertisement) - still no worker may run user work"),
+        leg("rt-gc_resume", "c16_rt", (2, 3), {"kind": "gc_resume", "L": 1}, what="max_allowed_parallelism 1: task::resume from a foreign thread (another 'wakeup' site) - still no worker may run user work"),
+        leg("rt-isolate_nested", "c16_rt", (1, 2), {"kind": "isolate_nested"}, what="inside scope S, after a nested isolate scope returned, the thread waits for a task of S that runs on the worker while its pool holds a task spawned outside S", weight=2.0),
+        leg("rt-isolate_wait", "c16_rt", (1, 2), {"kind": "isolate_nested", "nested": 0}, what="same without the nested scope", weight=2.0),
         leg("rt-gc1", "c16_rt", (2, 3), {"kind": "gc", "L": 1}, what="max_allowed_parallelism 1: no worker runs user work"),
         leg("rt-gc2", "c16_rt", (2, 3), {"kind": "gc", "L": 2}, what="max_allowed_parallelism 2: at most one worker"),
         leg("rt-gc3", "c16_rt", (2, 2), {"kind": "gc", "L": 3}, what="max_allowed_parallelism 3: at most two workers"),
@@ -351,6 +365,8 @@ PROPS["C18"] = {
         leg("default-pool", "c18_faults", (4, 7), {"kind": "default"}, flags=(), what="default pool history: slabs, fitting, large, aligned, calloc, huge, posix_memalign, realloc"),
         leg("memory-pool", "c18_faults", (3, 5), {"kind": "pool"}, flags=(), what="memory pool with growing raw memory, then reset and destroy"),
         leg("fixed-pool", "c18_faults", (2, 2), {"kind": "fixed"}, flags=(), what="fixed pool: buffer handed out once"),
+        leg("pool-orphan", "c18_faults", (3, 5), {"kind": "poolorphan"}, flags=(), what="pool whose slabs were orphaned by a finished thread and emptied by another thread; then every pattern of refused raw requests during a history (hard cache cleanup of orphaned blocks)"),
+        leg("pool-orphan-live", "c18_faults", (3, 5), {"kind": "poolorphan", "keep": 5}, flags=(), what="same, five blocks of the finished thread stay live and must stay intact"),
         leg("two-pools", "c18_faults", (4, 6), {"kind": "twopools"}, flags=(), what="two pools with live blocks; destroying one must not touch the other"),
         leg("extreme-args", "c18_faults", (0, 0), {"kind": "extreme"}, flags=(), what="sizes near SIZE_MAX, alignments up to 2^63, overflowing calloc, invalid alignments"),
         leg("cxx-allocators", "c18_faults", (3, 4), {"kind": "cxx"}, flags=(), what="scalable_allocator::allocate throws std::bad_alloc"),
